@@ -1490,7 +1490,7 @@ class ArrayToBlocks(Linop):
         self.blk_strides = blk_strides
         D = len(blk_shape)
         num_blks = [
-            (i - b + s) // s
+            (int(i) - int(b) + int(s)) // int(s)
             for i, b, s in zip(ishape[-D:], blk_shape, blk_strides)
         ]
         oshape = list(ishape[:-D]) + num_blks + list(blk_shape)
@@ -1539,7 +1539,7 @@ class BlocksToArray(Linop):
         self.blk_strides = blk_strides
         D = len(blk_shape)
         num_blks = [
-            (i - b + s) // s
+            (int(i) - int(b) + int(s)) // int(s)
             for i, b, s in zip(oshape[-D:], blk_shape, blk_strides)
         ]
         ishape = list(oshape[:-D]) + num_blks + list(blk_shape)
